@@ -1,5 +1,420 @@
-import Plonk.Model.Composer
+/-
+  C13 — Subgroup boundary: only prime-order subgroup points are let in.
+
+  "assert_torsion_free_point is satisfiable exactly when the witness coordinates are an on-curve
+   point of the prime-order subgroup (identity included), whatever auxiliary point the prover
+   supplies.  append_constant_point and the generator check of component_mul_generator accept
+   exactly such points (the latter additionally excluding the identity) and every point entry
+   point rejects a zero-Z representation with an error instead of panicking."
+
+  STATUS — everything below is proved in full (no `_partial`), about the model's own functions
+  (`Composer.assertTorsionFreeGates`, `assertTorsionFreePoint`, `appendPoint`,
+  `appendConstantPoint`, `appendPublicPoint`, `assertEqualPublicPoint`, `componentMulGenerator`,
+  `edMul`, `Ext.onCurve`, `Ext.torsionFree`, `Ext.primeOrder`).
+
+  * The `mulBits`–`smulF` bridge (`edMul_eq_smulF`, extended-coordinate add/double = affine law on
+    curve points, `Z ≠ 0` invariant) is PROVED, so nothing is relative to it.
+  * What is NOT proved and appears as an explicit hypothesis: the group order `8·r_J` of JubJub
+    (`JubjubGroupFacts`, single field `order`).  It is used only for the direction
+    "satisfiable ⇒ `[r_J]P = O`" (`tf_sat_torsion_free`, `tf_sat_iff_subgroup`,
+    `assertTorsionFreePoint_sound`).  Unconditional: satisfiable ⇔ `P ∈ [8]·E(F_r)`
+    (`tf_sat_iff`), satisfiable ⇒ on curve, (`[r_J]P = O` ∧ on curve) ⇒ satisfiable, and the
+    completeness of the host's own witness.
+  * Forced hypotheses (findings, none is a defect of the Rust code):
+      - `WF c` (witness values reduced, no public input registered for a future row) and
+        `PtAlloc c P` (the wires of `P` are allocated) — composer invariants;
+      - the Boolean tests of `JubJubExtended` are characterised for CANONICAL coordinates
+        (`e.z < R`, resp. `e.Red`): the model compares `Z` / `U` / `V` as raw naturals, exactly
+        as the Rust code compares canonical `BlsScalar`s;  the `Z = 0` test of the entry points
+        is the raw test `e.z = 0` (for canonical `Z`: `toF e.z = 0`).
+-/
+import Plonk.Proofs.TorsionFree
 namespace Plonk.Props.C13
-open Plonk
-theorem placeholder_consts : Generated.JUBJUB_SCALAR_BITS = 252 ∧ Generated.FIXED_BASE_LEADING_ZERO_ROUNDS = 3 ∧ Generated.MUL_POINT_BITS = 252 := by decide
+open Plonk Plonk.Composer
+
+/-! ## 1. `assert_torsion_free_gates` / `assert_torsion_free_point` -/
+
+/-- **tf_rows_iff.**  For ANY assignment `w` of the wires (so for any auxiliary point
+    `Q = (w n, w (n+1))` the prover supplies, `n = c.wit.size`), all twelve rows appended by
+    `assert_torsion_free_gates P q` hold iff `Q` is on the curve, every other new wire carries
+    the value forced by `Q` (`TFAux`: squares, helper products, and the three doublings
+    `[2]Q, [4]Q, [8]Q` — the addition law is complete on curve points, so no pole leaves a wire
+    free), and `[8]Q = P`. -/
+theorem tf_rows_iff (P q : Pt) (c : Composer) (h : WF c) (w : Nat → Nat) :
+    ((assertTorsionFreeGates P q).run c).2.rowsHoldW w c.gates.size
+        ((assertTorsionFreeGates P q).run c).2.gates.size ↔
+      OnCurveP (ptW w (c.wit.size, c.wit.size + 1)) ∧ TFAux w c.wit.size ∧
+      smulF 8 (ptW w (c.wit.size, c.wit.size + 1)) = ptW w P :=
+  Composer.tf_rows_iff P q c h w
+
+/-- non-vacuity: on a concrete state the rows are satisfied by one assignment and violated by
+    another (the model's table for the prime-order point `exG`; the all-zero assignment). -/
+example : ∃ w, ((assertTorsionFreeGates (6, 7) (0, 1)).run (tfExC exG)).2.rowsHoldW w
+    (tfExC exG).gates.size ((assertTorsionFreeGates (6, 7) (0, 1)).run (tfExC exG)).2.gates.size :=
+  let ⟨w, _, hw⟩ := tf_sat_of_torsion_free (6, 7) (0, 1) (tfExC exG) (tfExC_wf _) (tfExC_alloc _)
+    (tfExC exG).val (by rw [tfExC_val]; exact (onCurve_iff_P exG).mp exG_on_curve)
+    (by rw [tfExC_val]; exact exG_torsion)
+  ⟨w, hw⟩
+example : ¬ ((assertTorsionFreeGates (6, 7) (0, 1)).run (tfExC exG)).2.rowsHoldW (fun _ => 0)
+    (tfExC exG).gates.size ((assertTorsionFreeGates (6, 7) (0, 1)).run (tfExC exG)).2.gates.size := by
+  rw [tf_rows_iff _ _ _ (tfExC_wf _)]
+  rintro ⟨hc, -, -⟩
+  have : OnCurveF (0 : F) 0 := by simpa [OnCurveP, ptW] using hc
+  unfold OnCurveF at this
+  norm_num at this
+
+/-- **tf_sat_iff.**  Whatever values `w0` the already allocated wires carry (the coordinates of
+    `P` and the base wires `0`, `1` included), some choice of the 14 new wires satisfies the rows
+    iff `P = [8]Q` for some curve point `Q`.  Unconditional. -/
+theorem tf_sat_iff (P q : Pt) (c : Composer) (h : WF c) (hP : PtAlloc c P) (w0 : Nat → Nat) :
+    (∃ w, (∀ i, i < c.wit.size → w i = w0 i) ∧
+      ((assertTorsionFreeGates P q).run c).2.rowsHoldW w c.gates.size
+        ((assertTorsionFreeGates P q).run c).2.gates.size) ↔
+    ∃ Q : PtF, OnCurveP Q ∧ smulF 8 Q = ptW w0 P :=
+  Composer.tf_sat_iff P q c h hP w0
+
+example : WF (tfExC exG) ∧ PtAlloc (tfExC exG) (6, 7) := ⟨tfExC_wf _, tfExC_alloc _⟩
+
+/-- satisfiable ⇒ the coordinates of `P` are a curve point.  Unconditional. -/
+theorem tf_sat_on_curve (P q : Pt) (c : Composer) (h : WF c) (hP : PtAlloc c P) (w0 : Nat → Nat)
+    (hs : ∃ w, (∀ i, i < c.wit.size → w i = w0 i) ∧
+      ((assertTorsionFreeGates P q).run c).2.rowsHoldW w c.gates.size
+        ((assertTorsionFreeGates P q).run c).2.gates.size) :
+    OnCurveP (ptW w0 P) :=
+  Composer.tf_sat_on_curve P q c h hP w0 hs
+
+/-- non-vacuity (rejection): with the off-curve point `(1, 1)` on the wires of `P`, no choice of
+    the new wires satisfies the rows. -/
+example : ¬ ∃ w, (∀ i, i < (tfExC (1, 1)).wit.size → w i = (tfExC (1, 1)).val i) ∧
+    ((assertTorsionFreeGates (6, 7) (0, 1)).run (tfExC (1, 1))).2.rowsHoldW w
+      (tfExC (1, 1)).gates.size
+      ((assertTorsionFreeGates (6, 7) (0, 1)).run (tfExC (1, 1))).2.gates.size := by
+  intro hs
+  have hc := tf_sat_on_curve (6, 7) (0, 1) _ (tfExC_wf _) (tfExC_alloc _) _ hs
+  rw [tfExC_val, ← onCurve_iff_P] at hc
+  exact absurd hc (by decide +kernel)
+
+/-- a curve point killed by `r_J` ⇒ satisfiable (witness `Q = [8⁻¹ mod r_J]P`).  Unconditional;
+    the identity is included. -/
+theorem tf_sat_of_torsion_free (P q : Pt) (c : Composer) (h : WF c) (hP : PtAlloc c P)
+    (w0 : Nat → Nat) (hc : OnCurveP (ptW w0 P)) (hk : smulF RJ (ptW w0 P) = idF) :
+    ∃ w, (∀ i, i < c.wit.size → w i = w0 i) ∧
+      ((assertTorsionFreeGates P q).run c).2.rowsHoldW w c.gates.size
+        ((assertTorsionFreeGates P q).run c).2.gates.size :=
+  Composer.tf_sat_of_torsion_free P q c h hP w0 hc hk
+
+/-- non-vacuity: the hypotheses hold for `exG` (prime order) and for the identity `(0, 1)`. -/
+example : OnCurveP (toFP exG) ∧ smulF RJ (toFP exG) = idF ∧ toFP exG ≠ idF :=
+  ⟨(onCurve_iff_P exG).mp exG_on_curve, exG_torsion, exG_ne_id⟩
+example : ∃ w, (∀ i, i < (tfExC (0, 1)).wit.size → w i = (tfExC (0, 1)).val i) ∧
+    ((assertTorsionFreeGates (6, 7) (0, 1)).run (tfExC (0, 1))).2.rowsHoldW w
+      (tfExC (0, 1)).gates.size
+      ((assertTorsionFreeGates (6, 7) (0, 1)).run (tfExC (0, 1))).2.gates.size :=
+  tf_sat_of_torsion_free (6, 7) (0, 1) _ (tfExC_wf _) (tfExC_alloc _) _
+    (by rw [tfExC_val]; show OnCurveP (toFP Pt.id); rw [toFP_id]; exact id_on_curveP)
+    (by rw [tfExC_val]; show smulF RJ (toFP Pt.id) = idF; rw [toFP_id]; exact smulF_id RJ)
+
+/-- satisfiable ⇒ `[r_J]P = O`, under the group-order hypothesis `JubjubGroupFacts` only. -/
+theorem tf_sat_torsion_free (H : JubjubGroupFacts) (P q : Pt) (c : Composer) (h : WF c)
+    (hP : PtAlloc c P) (w0 : Nat → Nat)
+    (hs : ∃ w, (∀ i, i < c.wit.size → w i = w0 i) ∧
+      ((assertTorsionFreeGates P q).run c).2.rowsHoldW w c.gates.size
+        ((assertTorsionFreeGates P q).run c).2.gates.size) :
+    smulF RJ (ptW w0 P) = idF :=
+  Composer.tf_sat_torsion_free H P q c h hP w0 hs
+
+/-- **Subgroup boundary** (group-order hypothesis): satisfiable ⇔ the coordinates of `P` are a
+    curve point of the subgroup killed by `r_J` (identity included). -/
+theorem tf_sat_iff_subgroup (H : JubjubGroupFacts) (P q : Pt) (c : Composer) (h : WF c)
+    (hP : PtAlloc c P) (w0 : Nat → Nat) :
+    (∃ w, (∀ i, i < c.wit.size → w i = w0 i) ∧
+      ((assertTorsionFreeGates P q).run c).2.rowsHoldW w c.gates.size
+        ((assertTorsionFreeGates P q).run c).2.gates.size) ↔
+    OnCurveP (ptW w0 P) ∧ smulF RJ (ptW w0 P) = idF :=
+  Composer.tf_sat_iff_subgroup H P q c h hP w0
+
+/-- non-vacuity (rejection of a small-order curve point): with the order-2 point `(0, −1)` on
+    the wires of `P` — on the curve but outside the subgroup — the rows are unsatisfiable. -/
+example (H : JubjubGroupFacts) :
+    ¬ ∃ w, (∀ i, i < (tfExC (0, R - 1)).wit.size → w i = (tfExC (0, R - 1)).val i) ∧
+    ((assertTorsionFreeGates (6, 7) (0, 1)).run (tfExC (0, R - 1))).2.rowsHoldW w
+      (tfExC (0, R - 1)).gates.size
+      ((assertTorsionFreeGates (6, 7) (0, 1)).run (tfExC (0, R - 1))).2.gates.size := by
+  intro hs
+  have hk := tf_sat_torsion_free H (6, 7) (0, 1) _ (tfExC_wf _) (tfExC_alloc _) _ hs
+  rw [tfExC_val, toFP_exT2] at hk
+  exact exT2F_not_torsion hk
+example : OnCurveP exT2F := exT2F_on_curve
+
+/-- `assert_torsion_free_point P` lays down the same gates whatever the host computes, so for an
+    ARBITRARY assignment its rows mean the same (`tf_rows_iff` for the entry point itself). -/
+theorem assertTorsionFreePoint_rows_iff (P : Pt) (c : Composer) (h : WF c) (w : Nat → Nat) :
+    ((assertTorsionFreePoint P).run c).2.rowsHoldW w c.gates.size
+        ((assertTorsionFreePoint P).run c).2.gates.size ↔
+      OnCurveP (ptW w (c.wit.size, c.wit.size + 1)) ∧ TFAux w c.wit.size ∧
+      smulF 8 (ptW w (c.wit.size, c.wit.size + 1)) = ptW w P :=
+  Composer.assertTorsionFreePoint_rows_iff P c h w
+
+example : WF (tfExC exG) := tfExC_wf _
+
+/-- **Completeness of the entry point.**  If the model's table carries on the wires of `P` a curve
+    point killed by `r_J`, the host's own choice `q = [EIGHT_INV]P` makes the model's own witness
+    table satisfy all rows of `assert_torsion_free_point P`.  Unconditional. -/
+theorem assertTorsionFreePoint_complete (P : Pt) (c : Composer) (h : WF c) (hP : PtAlloc c P)
+    (hc : onCurve (c.val P.1, c.val P.2) = true) (hk : smulF RJ (ptW c.val P) = idF) :
+    ((assertTorsionFreePoint P).run c).2.rowsHoldW ((assertTorsionFreePoint P).run c).2.val
+      c.gates.size ((assertTorsionFreePoint P).run c).2.gates.size :=
+  Composer.assertTorsionFreePoint_complete P c h hP hc hk
+
+/-- non-vacuity: the concrete prime-order point `exG` -/
+example : ((assertTorsionFreePoint (6, 7)).run (tfExC exG)).2.rowsHoldW
+    ((assertTorsionFreePoint (6, 7)).run (tfExC exG)).2.val (tfExC exG).gates.size
+    ((assertTorsionFreePoint (6, 7)).run (tfExC exG)).2.gates.size :=
+  assertTorsionFreePoint_complete (6, 7) _ (tfExC_wf _) (tfExC_alloc _)
+    (by rw [(tfExC_val_nat exG).1, (tfExC_val_nat exG).2]; decide +kernel)
+    (by rw [tfExC_val]; exact exG_torsion)
+
+/-- **Soundness of the entry point** (group-order hypothesis): whatever assignment satisfies the
+    rows, it carries on the wires of `P` a curve point killed by `r_J`. -/
+theorem assertTorsionFreePoint_sound (H : JubjubGroupFacts) (P : Pt) (c : Composer) (h : WF c)
+    (w : Nat → Nat)
+    (hr : ((assertTorsionFreePoint P).run c).2.rowsHoldW w c.gates.size
+        ((assertTorsionFreePoint P).run c).2.gates.size) :
+    OnCurveP (ptW w P) ∧ smulF RJ (ptW w P) = idF :=
+  Composer.assertTorsionFreePoint_sound H P c h w hr
+
+example : ∃ w, ((assertTorsionFreePoint (6, 7)).run (tfExC exG)).2.rowsHoldW w
+    (tfExC exG).gates.size ((assertTorsionFreePoint (6, 7)).run (tfExC exG)).2.gates.size :=
+  ⟨_, assertTorsionFreePoint_complete (6, 7) _ (tfExC_wf _) (tfExC_alloc _)
+    (by rw [(tfExC_val_nat exG).1, (tfExC_val_nat exG).2]; decide +kernel)
+    (by rw [tfExC_val]; exact exG_torsion)⟩
+
+/-! ## 2. The host's scalar multiplication and Boolean tests, in the group law -/
+
+/-- **edMul_eq_smulF** (the `mulBits`–`smulF` bridge, proved): on a curve point the host's
+    extended-coordinate double-and-add `edMul k` computes the scalar multiple `[k]P` of the affine
+    group law, for every `k < 2^252` (every `JubJubScalar`); the result is canonical and on the
+    curve. -/
+theorem edMul_eq_smulF (k : Nat) (p : Pt) (hp : onCurve p = true) (hk : k < 2 ^ 252) :
+    toFP (edMul k p) = smulF k (toFP p) ∧ onCurve (edMul k p) = true ∧
+      (edMul k p).1 < R ∧ (edMul k p).2 < R :=
+  ⟨Plonk.edMul_eq_smulF k p hp hk, edMul_on_curve k p hp hk, edMul_lt k p⟩
+
+example : onCurve exG = true ∧ Generated.EIGHT_INV < 2 ^ 252 ∧ RJ < 2 ^ 252 :=
+  ⟨exG_on_curve, EIGHT_INV_lt, RJ_lt⟩
+example : smulF 8 (toFP (edMul Generated.EIGHT_INV exG)) = toFP exG := by
+  rw [(edMul_eq_smulF _ _ exG_on_curve EIGHT_INV_lt).1]
+  exact eight_smul_eight_inv ((onCurve_iff_P exG).mp exG_on_curve) exG_torsion
+
+/-- **`is_on_curve` (extended)**: `Z ≠ 0`, the affine point `(U/Z, V/Z)` is on the curve, and
+    `T1·T2 = U·V/Z`. -/
+theorem ext_onCurve_iff (e : Ext) :
+    e.onCurve = true ↔ e.z ≠ 0 ∧ OnCurveP e.affF ∧
+      e.affF.1 * e.affF.2 * toF e.z = toF e.t1 * toF e.t2 :=
+  Ext.onCurve_iff e
+
+example : (Ext.ofAffine exG).onCurve = true ∧ (⟨1, 1, 1, 1, 1⟩ : Ext).onCurve = false :=
+  ⟨exG_ext_onCurve, by decide +kernel⟩
+
+/-- **`is_torsion_free`** on an accepted point with canonical `Z`: `[r_J]P = O`. -/
+theorem ext_torsionFree_iff (e : Ext) (h : e.onCurve = true) (hz : e.z < R) :
+    e.torsionFree = true ↔ smulF RJ e.affF = idF :=
+  Ext.torsionFree_iff h hz
+
+example : (Ext.ofAffine exG).torsionFree = true ∧ exT2.onCurve = true ∧ exT2.torsionFree = false :=
+  ⟨exG_ext_torsionFree, exT2_onCurve, exT2_not_torsionFree⟩
+
+/-- **`is_prime_order`** on an accepted canonical point: `[r_J]P = O` and `P ≠ O`. -/
+theorem ext_primeOrder_iff (e : Ext) (h : e.onCurve = true) (hr : e.Red) :
+    e.primeOrder = true ↔ smulF RJ e.affF = idF ∧ e.affF ≠ idF :=
+  Ext.primeOrder_iff h hr
+
+example : (Ext.ofAffine exG).primeOrder = true ∧ Ext.id.primeOrder = false ∧
+    (Ext.ofAffine exG).Red :=
+  ⟨exG_ext_primeOrder, id_ext_not_primeOrder, ofAffine_red exG_lt.1 exG_lt.2⟩
+
+/-! ## 3. Host-side decision logic of the point entry points -/
+
+/-- **`append_point`**: fails with `JubJubPointDegenerate` exactly when `Z = 0`, leaving the
+    state unchanged; otherwise it returns the wires `(n, n+1)`, appends no gate, allocates exactly
+    these two witnesses, and they carry the affine point `(U/Z, V/Z)`. -/
+theorem appendPoint_spec (e : Ext) (c : Composer) :
+    (((appendPoint e).run c).1 = .error .degenerate ↔ e.z = 0) ∧
+    (e.z = 0 → (appendPoint e).run c = (.error .degenerate, c)) ∧
+    (e.z ≠ 0 → ∃ c', (appendPoint e).run c = (.ok (c.wit.size, c.wit.size + 1), c') ∧
+      Appends c c' 0 2 ∧ ptW c'.val (c.wit.size, c.wit.size + 1) = e.affF) :=
+  ⟨appendPoint_degenerate_iff e c, appendPoint_error_state e c,
+   fun h => ⟨_, appendPoint_ok e c h, apS_appends _ c, apS_ptW e c⟩⟩
+
+example : ((appendPoint ⟨1, 1, 0, 1, 1⟩).run initialized).1 = .error .degenerate :=
+  (appendPoint_spec _ _).1.mpr rfl
+example : ((appendPoint (Ext.ofAffine exG)).run initialized).1 ≠ .error .degenerate := by
+  rw [Ne, (appendPoint_spec _ _).1]; decide +kernel
+
+/-- **`append_public_point`**: `JubJubPointDegenerate` exactly when `Z = 0`, state unchanged;
+    otherwise the two appended rows hold under `w` iff the returned wires carry the affine point
+    (which the two public inputs expose). -/
+theorem appendPublicPoint_spec (e : Ext) (c : Composer) (h : WF c) :
+    (((appendPublicPoint e).run c).1 = .error .degenerate ↔ e.z = 0) ∧
+    (e.z = 0 → (appendPublicPoint e).run c = (.error .degenerate, c)) ∧
+    (e.z ≠ 0 → ∃ c', (appendPublicPoint e).run c = (.ok (c.wit.size, c.wit.size + 1), c') ∧
+      Appends c c' 2 2 ∧ ∀ w, c'.rowsHoldW w c.gates.size c'.gates.size ↔
+        ptW w (c.wit.size, c.wit.size + 1) = e.affF) := by
+  refine ⟨appendPublicPoint_degenerate_iff e c, fun hz => ?_, fun hz => ?_⟩
+  · rw [appendPublicPoint_run, if_pos hz]
+  · refine ⟨appS e.aff c, by rw [appendPublicPoint_run, if_neg hz], appS_appends _ c, fun w => ?_⟩
+    rw [appS_rows_iff _ c h, Ext.toFP_aff]
+
+example : ((appendPublicPoint ⟨1, 1, 0, 1, 1⟩).run initialized).1 = .error .degenerate :=
+  (appendPublicPoint_spec _ _ initialized_wf).1.mpr rfl
+
+/-- **`assert_equal_public_point`**: `JubJubPointDegenerate` exactly when `Z = 0`, state
+    unchanged; otherwise two rows that hold iff the wires of `p` carry the affine point. -/
+theorem assertEqualPublicPoint_spec (p : Pt) (e : Ext) (c : Composer) (h : WF c) :
+    (((assertEqualPublicPoint p e).run c).1 = .error .degenerate ↔ e.z = 0) ∧
+    (e.z = 0 → (assertEqualPublicPoint p e).run c = (.error .degenerate, c)) ∧
+    (e.z ≠ 0 → ∃ c', (assertEqualPublicPoint p e).run c = (.ok (), c') ∧
+      ∀ w, c'.rowsHoldW w c.gates.size c'.gates.size ↔ ptW w p = e.affF) := by
+  refine ⟨assertEqualPublicPoint_degenerate_iff p e c, fun hz => ?_, fun hz => ?_⟩
+  · rw [assertEqualPublicPoint_run, if_pos hz]
+  · refine ⟨aeppS p e.aff c, by rw [assertEqualPublicPoint_run, if_neg hz], fun w => ?_⟩
+    rw [aeppS_rows_iff _ _ c h, Ext.toFP_aff]
+
+example : ((assertEqualPublicPoint (0, 1) ⟨1, 1, 0, 1, 1⟩).run initialized).1
+    = .error .degenerate :=
+  (assertEqualPublicPoint_spec _ _ _ initialized_wf).1.mpr rfl
+
+/-- **`append_constant_point`**, decisions: `JubJubPointDegenerate` ⇔ `Z = 0`;
+    `JubJubPointNotTorsionFree` ⇔ `Z ≠ 0` and not (on curve and torsion free); success ⇔ `Z ≠ 0`,
+    on curve and torsion free; the state is unchanged unless it succeeds. -/
+theorem appendConstantPoint_decision (e : Ext) (c : Composer) :
+    (((appendConstantPoint e).run c).1 = .error .degenerate ↔ e.z = 0) ∧
+    (((appendConstantPoint e).run c).1 = .error .notTorsionFree ↔
+      e.z ≠ 0 ∧ ¬ (e.onCurve = true ∧ e.torsionFree = true)) ∧
+    ((∃ p, ((appendConstantPoint e).run c).1 = .ok p) ↔
+      e.z ≠ 0 ∧ e.onCurve = true ∧ e.torsionFree = true) ∧
+    (¬ (e.z ≠ 0 ∧ e.onCurve = true ∧ e.torsionFree = true) →
+      ((appendConstantPoint e).run c).2 = c) :=
+  ⟨appendConstantPoint_degenerate_iff e c, appendConstantPoint_notTorsionFree_iff e c,
+   appendConstantPoint_ok_iff e c, appendConstantPoint_error_state e c⟩
+
+example : ((appendConstantPoint ⟨1, 1, 0, 1, 1⟩).run initialized).1 = .error .degenerate :=
+  (appendConstantPoint_decision _ _).1.mpr rfl
+example : ((appendConstantPoint exT2).run initialized).1 = .error .notTorsionFree :=
+  (appendConstantPoint_decision _ _).2.1.mpr
+    ⟨by decide, by rw [exT2_not_torsionFree]; simp⟩
+example : ∃ p, ((appendConstantPoint (Ext.ofAffine exG)).run initialized).1 = .ok p :=
+  (appendConstantPoint_decision _ _).2.2.1.mpr
+    ⟨by decide +kernel, exG_ext_onCurve, exG_ext_torsionFree⟩
+
+/-- **`append_constant_point` accepts exactly the subgroup points** (canonical `Z`): the
+    acceptance condition is `Z ≠ 0`, `(U/Z, V/Z)` on the curve with consistent `T1·T2`, and
+    `[r_J](U/Z, V/Z) = O` (identity included). -/
+theorem appendConstantPoint_accepts_iff (e : Ext) (c : Composer) (hz : e.z < R) :
+    (∃ p, ((appendConstantPoint e).run c).1 = .ok p) ↔
+      toF e.z ≠ 0 ∧ OnCurveP e.affF ∧ e.affF.1 * e.affF.2 * toF e.z = toF e.t1 * toF e.t2 ∧
+      smulF RJ e.affF = idF := by
+  rw [(appendConstantPoint_decision e c).2.2.1]
+  exact Composer.appendConstantPoint_accepts_iff e hz
+
+example : (Ext.ofAffine exG).z < R ∧ Ext.id.z < R :=
+  ⟨Nat.mod_lt _ R_pos, Nat.mod_lt _ R_pos⟩
+/-- the identity is accepted -/
+example : ∃ p, ((appendConstantPoint Ext.id).run initialized).1 = .ok p :=
+  (appendConstantPoint_decision _ _).2.2.1.mpr ⟨by decide +kernel, by decide +kernel,
+    by decide +kernel⟩
+
+/-- **`append_constant_point` on success**: wires `(n, n+1)`, two `append_constant` rows that
+    hold under `w` iff the wires carry the affine point; the model's own table satisfies them. -/
+theorem appendConstantPoint_success (e : Ext) (c : Composer) (h : WF c) (hz : e.z ≠ 0)
+    (h1 : e.onCurve = true) (h2 : e.torsionFree = true) :
+    ∃ c', (appendConstantPoint e).run c = (.ok (c.wit.size, c.wit.size + 1), c') ∧
+      Appends c c' 2 2 ∧
+      (∀ w, c'.rowsHoldW w c.gates.size c'.gates.size ↔
+        ptW w (c.wit.size, c.wit.size + 1) = e.affF) ∧
+      c'.rowsHoldW c'.val c.gates.size c'.gates.size := by
+  refine ⟨acpS e.aff c, appendConstantPoint_ok e c hz h1 h2, acpS_appends _ c, fun w => ?_,
+    acpS_honest _ c h⟩
+  rw [acpS_rows_iff _ c h, Ext.toFP_aff]
+
+example : (Ext.ofAffine exG).z ≠ 0 ∧ (Ext.ofAffine exG).onCurve = true ∧
+    (Ext.ofAffine exG).torsionFree = true :=
+  ⟨by decide +kernel, exG_ext_onCurve, exG_ext_torsionFree⟩
+
+/-- **`component_mul_generator`, host-side checks.**  The `Z = 0` test comes first (before any
+    projection), then `is_on_curve`, then `is_prime_order`: `JubJubGeneratorNotPrimeOrder` ⇔ one
+    of them fails; `JubJubScalarMalformed` ⇔ the generator passes and the scalar value is
+    `≥ r_J`; the state is unchanged in both cases; otherwise the fixed-base gates are laid down
+    for the affine generator and the width-2 NAF of the scalar. -/
+theorem componentMulGenerator_decision (j : Nat) (e : Ext) (c : Composer) :
+    (((componentMulGenerator j e).run c).1 = .error .generatorNotPrime ↔
+      (e.z = 0 ∨ e.onCurve = false ∨ e.primeOrder = false)) ∧
+    (((componentMulGenerator j e).run c).1 = .error .scalarMalformed ↔
+      ¬ (e.z = 0 ∨ e.onCurve = false ∨ e.primeOrder = false) ∧ RJ ≤ c.val j) ∧
+    ((e.z = 0 ∨ e.onCurve = false ∨ e.primeOrder = false) ∨ RJ ≤ c.val j →
+      ((componentMulGenerator j e).run c).2 = c) ∧
+    (¬ (e.z = 0 ∨ e.onCurve = false ∨ e.primeOrder = false) → c.val j < RJ →
+      (componentMulGenerator j e).run c =
+        (appendFixedBaseSignedDigits j e.aff (wnaf2 (c.val j))).run c) := by
+  refine ⟨componentMulGenerator_generatorNotPrime_iff j e c,
+    componentMulGenerator_scalarMalformed_iff j e c, componentMulGenerator_error_state j e c,
+    fun h1 h2 => ?_⟩
+  rw [componentMulGenerator_run, if_neg h1, if_neg (Nat.not_le.mpr h2)]
+
+/-- non-vacuity: zero-`Z` and the identity are rejected; `exG` passes the generator test (then
+    the scalar on wire `0`, value `0 < r_J`, passes too) -/
+example : ((componentMulGenerator 0 ⟨1, 1, 0, 1, 1⟩).run initialized).1
+    = .error .generatorNotPrime :=
+  (componentMulGenerator_decision _ _ _).1.mpr (Or.inl rfl)
+example : ((componentMulGenerator 0 Ext.id).run initialized).1 = .error .generatorNotPrime :=
+  (componentMulGenerator_decision _ _ _).1.mpr (Or.inr (Or.inr id_ext_not_primeOrder))
+example : ((componentMulGenerator 0 (Ext.ofAffine exG)).run initialized).1
+    ≠ .error .generatorNotPrime := by
+  rw [Ne, (componentMulGenerator_decision _ _ _).1, exG_ext_onCurve, exG_ext_primeOrder]
+  decide +kernel
+example : ((componentMulGenerator 0 (Ext.ofAffine exG)).run
+    (tfExC (RJ, 0))).1 ≠ .error .scalarMalformed ∧
+    ((componentMulGenerator 6 (Ext.ofAffine exG)).run (tfExC (RJ, 0))).1
+      = .error .scalarMalformed := by
+  constructor
+  · rw [Ne, (componentMulGenerator_decision _ _ _).2.1]
+    rintro ⟨-, h⟩
+    have h0 : (tfExC (RJ, 0)).val 0 = 0 := by
+      unfold tfExC
+      rw [(apS_appends (RJ, 0) initialized).ext.val_eq (w := 0)
+        (by rw [initialized_wit_size]; decide)]
+      exact initialized_val_zero
+    rw [h0] at h; exact absurd h (by decide +kernel)
+  · rw [(componentMulGenerator_decision _ _ _).2.1, exG_ext_onCurve, exG_ext_primeOrder,
+      (tfExC_val_nat (RJ, 0)).1]
+    decide +kernel
+
+/-- **the generator test accepts exactly the non-identity subgroup points** (canonical
+    coordinates). -/
+theorem componentMulGenerator_accepts_iff (e : Ext) (hr : e.Red) :
+    ¬ (e.z = 0 ∨ e.onCurve = false ∨ e.primeOrder = false) ↔
+      toF e.z ≠ 0 ∧ OnCurveP e.affF ∧ e.affF.1 * e.affF.2 * toF e.z = toF e.t1 * toF e.t2 ∧
+      smulF RJ e.affF = idF ∧ e.affF ≠ idF :=
+  Composer.componentMulGenerator_accepts_iff e hr
+
+example : (Ext.ofAffine exG).Red := ofAffine_red exG_lt.1 exG_lt.2
+
+/-- **Zero-`Z` is always an error, never a panic**: each of the five point entry points returns
+    its error value on a `Z = 0` representation and leaves the composer untouched (the model is
+    total; no projection `U/Z` is evaluated on this path). -/
+theorem zero_z_rejected (e : Ext) (hz : e.z = 0) (p : Pt) (j : Nat) (c : Composer) :
+    (appendPoint e).run c = (.error .degenerate, c) ∧
+    (appendConstantPoint e).run c = (.error .degenerate, c) ∧
+    (appendPublicPoint e).run c = (.error .degenerate, c) ∧
+    (assertEqualPublicPoint p e).run c = (.error .degenerate, c) ∧
+    (componentMulGenerator j e).run c = (.error .generatorNotPrime, c) := by
+  refine ⟨?_, ?_, ?_, ?_, ?_⟩
+  · rw [appendPoint_run, if_pos hz]
+  · rw [appendConstantPoint_run, if_pos hz]
+  · rw [appendPublicPoint_run, if_pos hz]
+  · rw [assertEqualPublicPoint_run, if_pos hz]
+  · rw [componentMulGenerator_run, if_pos (Or.inl hz)]
+
+example : (⟨5, 7, 0, 1, 2⟩ : Ext).z = 0 := rfl
+
 end Plonk.Props.C13
